@@ -160,6 +160,14 @@ func (i c02dInst) text() string {
 		return fmt.Sprintf("dsr.%d.%d", i.a, i.b)
 	case "getpc":
 		return fmt.Sprintf("getpc.%d", i.a)
+	case "svcc":
+		return fmt.Sprintf("svcc.%x", i.a)
+	case "vcmp":
+		return fmt.Sprintf("vcmp.%d.%d", i.a, i.b)
+	case "vrfl":
+		return fmt.Sprintf("vrfl.%d.%d", i.a, i.b)
+	case "cbrv":
+		return fmt.Sprintf("cbrv.%d.%x", i.a, i.b)
 	}
 	return i.op // nop, end
 }
@@ -172,7 +180,7 @@ func (i c02dInst) size() int {
 			return 4
 		}
 		return 8
-	case "sexec":
+	case "sexec", "svcc":
 		if i.a <= 64 || i.a == c02dFull {
 			return 4
 		}
@@ -205,15 +213,25 @@ func (i c02dInst) enc() []byte {
 		d = desc{format: "sop2", op: 0, f: c02dU("sdst", i.a, "ssrc0", i.b, "ssrc1", i.c)}
 	case "scmp": // s_cmp_lt_u32
 		d = desc{format: "sopc", op: 10, f: c02dU("ssrc0", i.a, "ssrc1", i.b)}
-	case "sexec": // s_mov_b64 exec, v
+	case "sexec", "svcc": // s_mov_b64 exec / vcc, v
+		dst := uint64(126)
+		if i.op == "svcc" {
+			dst = 106
+		}
 		switch {
 		case i.a <= 64:
-			d = desc{format: "sop1", op: 1, f: c02dU("sdst", uint64(126), "ssrc0", 128+i.a)}
+			d = desc{format: "sop1", op: 1, f: c02dU("sdst", dst, "ssrc0", 128+i.a)}
 		case i.a == c02dFull:
-			d = desc{format: "sop1", op: 1, f: c02dU("sdst", uint64(126), "ssrc0", uint64(193))}
+			d = desc{format: "sop1", op: 1, f: c02dU("sdst", dst, "ssrc0", uint64(193))}
 		default:
-			d = desc{format: "sop1", op: 1, f: c02dU("sdst", uint64(126), "ssrc0", uint64(255)), literal: uint32(i.a), hasLit: true}
+			d = desc{format: "sop1", op: 1, f: c02dU("sdst", dst, "ssrc0", uint64(255)), literal: uint32(i.a), hasLit: true}
 		}
+	case "vcmp": // v_cmp_lt_u32 vcc, s_s, v_a
+		d = desc{format: "vopc", op: 0xC9, f: c02dU("src0", i.a, "vsrc1", i.b)}
+	case "vrfl": // v_readfirstlane_b32 s_d, v_a
+		d = desc{format: "vop1", op: 2, f: c02dU("vdst", i.a, "src0", 256+i.b)}
+	case "cbrv": // s_cbranch_vccz (0) / s_cbranch_vccnz (1)
+		d = desc{format: "sopp", op: 6 + uint32(i.a), f: c02dU("simm16", i.b&0xffff)}
 	case "vmov": // v_mov_b32 v_d, s_s
 		d = desc{format: "vop1", op: 1, f: c02dU("vdst", i.a, "src0", i.b)}
 	case "vxor": // v_xor_b32 v_d, s_s, v_a
@@ -249,7 +267,7 @@ func (i c02dInst) enc() []byte {
 var c02dNames = map[string]string{"smov": "s_mov_b32", "sadd": "s_add_u32", "scmp": "s_cmp_lt_u32", "sexec": "s_mov_b64",
 	"vmov": "v_mov_b32_e32", "vxor": "v_xor_b32_e32", "fld": "flat_load_dword", "fst": "flat_store_dword", "sld": "s_load_dword",
 	"wait": "s_waitcnt", "nop": "s_nop", "end": "s_endpgm", "br": "s_branch", "dsw": "ds_write_b32", "dsr": "ds_read_b32",
-	"getpc": "s_getpc_b64"}
+	"getpc": "s_getpc_b64", "svcc": "s_mov_b64", "vcmp": "v_cmp_lt_u32_e32", "vrfl": "v_readfirstlane_b32"}
 
 // c02dCheckEnc decodes the encoding with the real disassembler: name, size, wait counts.
 func c02dCheckEnc(dis *insts.Disassembler, i c02dInst) string {
@@ -264,6 +282,9 @@ func c02dCheckEnc(dis *insts.Disassembler, i c02dInst) string {
 	want := c02dNames[i.op]
 	if i.op == "cbr" {
 		want = fmt.Sprintf("s_cbranch_scc%d", i.a)
+	}
+	if i.op == "cbrv" {
+		want = []string{"s_cbranch_vccz", "s_cbranch_vccnz"}[i.a]
 	}
 	if in.InstName != want {
 		return fmt.Sprintf("name: decoder %q, want %q", in.InstName, want)
@@ -284,11 +305,13 @@ type c02dCase struct {
 	sb               bool
 	cut              int // stop after that many ticks (0: run to completion)
 	// what the generator knows about the program
-	kind      string // sync | hazard | getpc | vmempty
+	kind      string // sync | hazard | getpc | vmempty | lateexec | simdskip
 	getpcDst  int
-	foreignLd bool // loads from the foreign window
-	nEnv      int  // env events to perform
-	holdIdx   int  // hold the vector memory until instruction holdIdx has been issued (-1: no hold)
+	ldDst     []int // lateexec: the loaded VGPRs
+	rflDst    int   // simdskip: the SGPR written by v_readfirstlane_b32
+	foreignLd bool  // loads from the foreign window
+	nEnv      int   // env events to perform
+	holdIdx   int   // hold the vector memory until instruction holdIdx has been issued (-1: no hold)
 	nBranch   int
 	// harness timing knobs
 	fetchMax, pServeS, pRetS, pServeV, pRetV int
@@ -335,6 +358,7 @@ type c02dState struct {
 	s    [16]uint32
 	scc  byte
 	exec uint64
+	vcc  uint64
 	v    [10][64]uint32
 	lds  [256]byte
 	mem  string
@@ -363,7 +387,7 @@ func (st *c02dState) str() string {
 	for i := range s {
 		s[i] = fmt.Sprintf("%x", st.s[i])
 	}
-	return fmt.Sprintf("s=%s scc=%d exec=%x v=%x lds=%x mem=%s", strings.Join(s, ","), st.scc, st.exec, st.vhash(), st.lhash(), st.mem)
+	return fmt.Sprintf("s=%s scc=%d exec=%x vcc=%x v=%x lds=%x mem=%s", strings.Join(s, ","), st.scc, st.exec, st.vcc, st.vhash(), st.lhash(), st.mem)
 }
 
 // differences lists where two final states differ (E first, T second).
@@ -379,6 +403,9 @@ func (st *c02dState) differences(o *c02dState) string {
 	}
 	if st.exec != o.exec {
 		d = append(d, fmt.Sprintf("exec: emulator %x timing %x", st.exec, o.exec))
+	}
+	if st.vcc != o.vcc {
+		d = append(d, fmt.Sprintf("vcc: emulator %x timing %x", st.vcc, o.vcc))
 	}
 	for v := 0; v < 10; v++ {
 		n, first := 0, -1
@@ -450,6 +477,7 @@ func c02dRunEmu(cs *c02dCase, dis *insts.Disassembler) *c02dEmuRes {
 		}
 	}
 	wf.SetSCC(0)
+	wf.SetVCC(0)
 	wf.SetEXEC(cs.exec)
 	wf.SetPC(cs.base)
 	done := false
@@ -492,6 +520,7 @@ func c02dRunEmu(cs *c02dCase, dis *insts.Disassembler) *c02dEmuRes {
 	}
 	res.st.scc = wf.SCC()
 	res.st.exec = wf.EXEC()
+	res.st.vcc = wf.VCC()
 	copy(res.st.lds[:], lds)
 	res.st.mem = m.diff()
 	return res
@@ -538,6 +567,8 @@ type c02dVTxn struct {
 type c02dVReq struct {
 	txns   []*c02dVTxn
 	served bool
+	load   bool
+	execAt uint64 // EXEC when the instruction executed (the coalescer read it)
 }
 
 type c02dSnap struct {
@@ -572,7 +603,10 @@ type c02dT struct {
 	vByID map[string]*c02dVTxn
 	envAt []int
 
-	stuck int // ticks the wavefront has been sitting in the same scheduler-internal instruction
+	returned []*c02dVReq // vector instructions whose responses were handed over before this tick
+	lateHit  int         // loads whose data returned under an EXEC different from the one they executed with
+	lateMiss int
+	stuck    int // ticks the wavefront has been sitting in the same scheduler-internal instruction
 
 	abort string
 }
@@ -637,6 +671,7 @@ func c02dNewT(r *Run, rng *Rng, cs *c02dCase) *c02dT {
 		}
 	}
 	t.wf.SetSCC(0)
+	t.wf.SetVCC(0)
 	t.wf.SetEXEC(cs.exec)
 	return t
 }
@@ -672,7 +707,7 @@ func (t *c02dT) holding() bool {
 	}
 	// released as soon as the instruction has been issued — or when the wavefront sits in an
 	// s_waitcnt / s_endpgm that cannot pass without the held responses (no deadlock by the harness)
-	return !t.issuedIx[t.cs.offs[t.cs.holdIdx]] && t.stuck < 8
+	return !t.issuedIx[t.cs.offs[t.cs.holdIdx]] && t.stuck < 24
 }
 
 // actions of the harness before a tick; returns the index of the scalar response handed to the CU
@@ -781,6 +816,7 @@ func (t *c02dT) act(tick int) (rsc int, nrv int) {
 			}
 		}
 		budget -= len(t.vq[0].txns)
+		t.returned = append(t.returned, t.vq[0])
 		t.vq = t.vq[1:]
 		nrv++
 	}
@@ -820,6 +856,8 @@ func (t *c02dT) derive(pre, post c02dSnap, rsc, nrv int) {
 			}
 			if len(q.txns) > 0 {
 				formed = 1
+				q.load = q.txns[0].read != nil
+				q.execAt = t.wf.EXEC()
 				t.vq = append(t.vq, q)
 				if len(q.txns) > 16 {
 					t.abort = fmt.Sprintf("%d transactions for one instruction", len(q.txns))
@@ -833,7 +871,9 @@ func (t *c02dT) derive(pre, post c02dSnap, rsc, nrv int) {
 			t.ev("c")
 		}
 	}
-	if post.state == wavefront.WfRunning && post.dyn == pre.dyn && kind == c02dKSpecial {
+	// an s_waitcnt / s_endpgm, or a FLAT instruction without transaction (it waits in the vector
+	// memory unit for the older accesses), that does not move: the wavefront needs the held responses
+	if post.state == wavefront.WfRunning && post.dyn == pre.dyn && (kind == c02dKSpecial || kind == c02dKFlat) {
 		t.stuck++
 	} else {
 		t.stuck = 0
@@ -873,6 +913,14 @@ func (t *c02dT) derive(pre, post c02dSnap, rsc, nrv int) {
 	for k := 0; k < nrv; k++ {
 		t.ev("rv")
 	}
+	for _, q := range t.returned {
+		if q.load && q.execAt != t.wf.EXEC() {
+			t.lateHit++
+		} else if q.load {
+			t.lateMiss++
+		}
+	}
+	t.returned = t.returned[:0]
 	// the counters must move exactly as the derived events say
 	if post.vm != pre.vm+formed-nrv || post.lgkm != pre.lgkm+formed+sload-nrv-c02dB2i(rsc >= 0) {
 		t.abort = fmt.Sprintf("counters moved vm %d->%d lgkm %d->%d, derived formed=%d sload=%d rv=%d rsc=%v", pre.vm, post.vm, pre.lgkm, post.lgkm, formed, sload, nrv, rsc >= 0)
@@ -1024,6 +1072,7 @@ func (t *c02dT) run() *c02dTRes {
 	}
 	res.st.scc = w.SCC()
 	res.st.exec = w.EXEC()
+	res.st.vcc = w.VCC()
 	copy(res.st.lds[:], w.WG.LDS)
 	res.st.mem = t.mem.diff()
 	res.line = fmt.Sprintf("T ok ph=%s pc=%d vm=%d lgkm=%d ib=%x:%d tr=%s %s", res.ph, c02dSub(w.PC(), cs.base),
@@ -1089,6 +1138,10 @@ func (g *c02dGen) effects(i c02dInst) (rd, wr []int, mk, area int) {
 		rd, wr = []int{c02dV(b)}, []int{c02dV(a)}
 	case "getpc":
 		wr = []int{a, a + 1}
+	case "vcmp":
+		rd = []int{a, c02dV(b)}
+	case "vrfl":
+		rd, wr = []int{c02dV(b)}, []int{a}
 	}
 	return
 }
@@ -1256,7 +1309,14 @@ func (g *c02dGen) vSrc() uint64 {
 
 func (g *c02dGen) aluInst() c02dInst {
 	rng := g.rng
-	switch rng.Intn(8) {
+	switch rng.Intn(10) {
+	case 8:
+		return c02dInst{op: "vcmp", a: g.sSrc(), b: g.vSrc()}
+	case 9:
+		if rng.Bool() {
+			return c02dInst{op: "svcc", a: uint64(rng.Pick(0, 1, 64, 0xdeadbeef))}
+		}
+		return c02dInst{op: "vrfl", a: g.sData(), b: g.vSrc()}
 	case 0:
 		return c02dInst{op: "smov", a: g.sData(), b: uint64(rng.Pick(0, 1, 7, 64, 65, 0x1234, 0xdeadbeef))}
 	case 1, 2:
@@ -1350,9 +1410,14 @@ func (g *c02dGen) item() {
 			dw += i.size() / 4
 		}
 		var br c02dInst
-		switch rng.Intn(3) {
+		switch rng.Intn(4) {
 		case 0:
 			br = c02dInst{op: "br", a: uint64(dw)}
+		case 1:
+			if rng.Bool() {
+				g.add(c02dInst{op: "vcmp", a: g.sSrc(), b: g.vSrc()})
+			}
+			br = c02dInst{op: "cbrv", a: uint64(rng.Intn(2)), b: uint64(dw)}
 		default:
 			if rng.Bool() {
 				g.add(c02dInst{op: "scmp", a: g.sSrc(), b: g.sSrc()})
@@ -1536,6 +1601,124 @@ func c02dVmEmpty(rng *Rng, cs *c02dCase, witness bool) {
 	cs.getpcDst = -1
 }
 
+// c02dLateExec (class 3): EXEC changes between the execution of a FLAT load (the coalescer fixes the
+// lanes then) and the return of its data. The lanes written must be those of the EXEC at execution.
+func c02dLateExec(rng *Rng, cs *c02dCase) {
+	cs.exec = c02dFull
+	g := c02dNewGen(rng, cs.exec)
+	g.add(c02dInst{op: "smov", a: 5, b: 0})
+	g.setupPair(2, g.winAddr(), rng.Chance(25))
+	for k := rng.Intn(3); k > 0; k-- {
+		g.add(g.aluInst())
+	}
+	narrow := uint64(rng.Pick(0, 0, 0xffff, 1, 0xf0f0f0f0, 0x80000001))
+	nops := func() {
+		for k := rng.Range(2, 12); k > 0; k-- {
+			g.add(c02dInst{op: "nop"})
+		}
+	}
+	cs.ldDst = []int{6}
+	switch rng.Intn(3) {
+	case 0: // narrowed while the data is on its way, widened after it came back (if the window is hit)
+		g.add(c02dInst{op: "fld", a: 6, b: 2})
+		g.add(c02dInst{op: "sexec", a: narrow})
+		cs.holdIdx = len(g.p)
+		nops()
+		g.add(c02dInst{op: "sexec", a: c02dFull})
+	case 1: // narrowed before the load, widened before the data returns
+		if narrow == 0 {
+			narrow = 0xffff0000
+		}
+		g.add(c02dInst{op: "sexec", a: narrow})
+		g.add(c02dInst{op: "fld", a: 6, b: 2})
+		g.add(c02dInst{op: "sexec", a: c02dFull})
+		if rng.Bool() {
+			nops()
+		}
+	default: // both: one load before, one after the narrowing
+		g.add(c02dInst{op: "fld", a: 6, b: 2})
+		g.add(c02dInst{op: "sexec", a: narrow})
+		g.add(c02dInst{op: "fld", a: 7, b: uint64(rng.Pick(2, 0))})
+		cs.holdIdx = len(g.p)
+		nops()
+		g.add(c02dInst{op: "sexec", a: c02dFull})
+		cs.ldDst = []int{6, 7}
+	}
+	g.raw(c02dInst{op: "wait", a: 0, b: 0})
+	for _, d := range cs.ldDst {
+		if rng.Bool() {
+			g.add(c02dInst{op: "vxor", a: 8, b: 4, c: uint64(d)})
+		} else {
+			g.add(c02dInst{op: "fst", a: 2, b: uint64(d)})
+		}
+	}
+	g.raw(c02dInst{op: "end"})
+	cs.prog = g.p
+	cs.kind = "lateexec"
+	cs.pServeV, cs.pRetV = 100, 100
+	cs.vShuffle = false
+}
+
+// c02dSimdSkip (class 5): VALU instructions whose result is scalar (VCC, an SGPR) executed with
+// EXEC = 0 or a sparse EXEC: they must still execute (VCC := 0, s_d := lane 0 / first active lane).
+func c02dSimdSkip(rng *Rng, cs *c02dCase) {
+	g := c02dNewGen(rng, cs.exec)
+	if rng.Bool() {
+		g.add(c02dInst{op: "svcc", a: uint64(rng.Pick(1, 0xdeadbeef, 64))})
+		if rng.Bool() {
+			g.p[len(g.p)-1].a = c02dFull
+		}
+	} else {
+		g.add(c02dInst{op: "smov", a: 11, b: uint64(rng.Intn(200))})
+		g.add(c02dInst{op: "vcmp", a: 11, b: 0})
+	}
+	e0 := uint64(0)
+	if rng.Chance(40) {
+		e0 = uint64(rng.Pick(1, 0x10, 0xff00, 0x80000001, 0x40000000))
+	}
+	g.add(c02dInst{op: "sexec", a: e0})
+	for k := rng.Intn(2); k > 0; k-- {
+		g.add(c02dInst{op: "nop"})
+	}
+	g.add(c02dInst{op: "vcmp", a: uint64(rng.Pick(0, 1, 2, 3, 11)), b: uint64(rng.Pick(0, 6, 7, 8, 9))})
+	cs.rflDst = rng.Range(12, 15)
+	g.add(c02dInst{op: "vrfl", a: uint64(cs.rflDst), b: uint64(rng.Pick(0, 6, 7, 8, 9))})
+	if rng.Chance(30) { // the other order
+		n := len(g.p)
+		g.p[n-1], g.p[n-2] = g.p[n-2], g.p[n-1]
+	}
+	var blk []c02dInst
+	dw := 0
+	for k := rng.Range(1, 2); k > 0; k-- {
+		d := uint64(rng.Range(12, 15))
+		for int(d) == cs.rflDst {
+			d = uint64(rng.Range(12, 15))
+		}
+		i := c02dInst{op: "smov", a: d, b: uint64(rng.Pick(3, 0x1234))}
+		if rng.Bool() {
+			i = c02dInst{op: "sadd", a: d, b: uint64(rng.Intn(4)), c: uint64(rng.Intn(4))}
+		}
+		blk = append(blk, i)
+		dw += i.size() / 4
+	}
+	g.raw(c02dInst{op: "cbrv", a: uint64(rng.Intn(2)), b: uint64(dw)})
+	for _, i := range blk {
+		g.raw(i)
+	}
+	g.nBranch++
+	g.add(c02dInst{op: "sexec", a: c02dFull})
+	if rng.Bool() {
+		g.add(c02dInst{op: "vmov", a: 6, b: uint64(cs.rflDst)})
+	}
+	if rng.Bool() {
+		g.add(c02dInst{op: "vcmp", a: uint64(cs.rflDst), b: 0})
+	}
+	g.raw(c02dInst{op: "end"})
+	cs.prog = g.p
+	cs.nBranch = g.nBranch
+	cs.kind = "simdskip"
+}
+
 func c02dKnobs(rng *Rng, cs *c02dCase) {
 	cs.fetchMax = rng.Pick(0, 2, 6, 6)
 	cs.pServeS, cs.pRetS = rng.Pick(100, 60, 25), rng.Pick(100, 60, 25)
@@ -1548,7 +1731,7 @@ func c02dKnobs(rng *Rng, cs *c02dCase) {
 var c02dBases = []int{0x1000, 0x1004, 0x1038, 0x103c, 0x10fc, 0x1f34, 0x2030, 0x107c, 0x10f8, 0x1ffc}
 
 func c02dGenCase(rng *Rng) *c02dCase {
-	cs := &c02dCase{holdIdx: -1, getpcDst: -1}
+	cs := &c02dCase{holdIdx: -1, getpcDst: -1, rflDst: -1}
 	cs.base = uint64(c02dBases[rng.Intn(len(c02dBases))])
 	cs.seed = uint64(rng.Intn(1 << 20))
 	switch x := rng.Intn(100); {
@@ -1566,12 +1749,17 @@ func c02dGenCase(rng *Rng) *c02dCase {
 		cs.exec = 0
 	}
 	c02dKnobs(rng, cs)
-	if rng.Chance(5) {
+	switch x := rng.Intn(100); {
+	case x < 5:
 		if cs.exec != c02dFull && (cs.exec == 0 || cs.exec>>32 != 0) {
 			cs.exec = c02dFull
 		}
 		c02dVmEmpty(rng, cs, false)
-	} else {
+	case x < 20:
+		c02dLateExec(rng, cs)
+	case x < 35:
+		c02dSimdSkip(rng, cs)
+	default:
 		c02dGenProgram(rng, cs)
 	}
 	if rng.Chance(40) {
@@ -1700,12 +1888,300 @@ func c02dRunCase(r *Run, rng *Rng, dis *insts.Disassembler, cs *c02dCase) {
 		} else {
 			r.Count("wf:vmempty-same")
 		}
+	case "lateexec":
+		r.CountN("wf:late-exec-window-hit", t.lateHit)
+		r.CountN("wf:late-exec-window-miss", t.lateMiss)
+		r.Checked("load-return-late-exec")
+		bad := ""
+		for _, d := range cs.ldDst {
+			n, first := 0, -1
+			for l := 0; l < 64; l++ {
+				if e.st.v[d][l] != res.st.v[d][l] {
+					n++
+					if first < 0 {
+						first = l
+					}
+				}
+			}
+			if n > 0 {
+				bad += fmt.Sprintf("v%d: %d lanes differ, lane %d emulator %x timing %x; ", d, n, first, e.st.v[d][first], res.st.v[d][first])
+			}
+		}
+		switch {
+		case bad != "":
+			r.Failf("C02.load-return-uses-late-exec", line, "the lanes a returning load writes must be those of EXEC when it executed: %s", bad)
+		case !sameTrace:
+			r.Failf("C02.wf-trace-differs", line, "emulator executed %s, timing issued %s", c02dTrace(e.trace), c02dTrace(t.trace))
+		case diff != "":
+			r.Failf("C02.wf-final-differs", line, "%s", diff)
+		}
+	case "simdskip":
+		r.Checked("simd-skipped-instruction")
+		d := cs.rflDst
+		switch {
+		case !sameTrace || e.st.vcc != res.st.vcc || e.st.s[d] != res.st.s[d]:
+			r.Failf("C02.simd-skipped-instruction", line, "emulator tr=%s vcc=%x s%d=%x, timing tr=%s vcc=%x s%d=%x", c02dTrace(e.trace), e.st.vcc, d, e.st.s[d],
+				c02dTrace(t.trace), res.st.vcc, d, res.st.s[d])
+		case diff != "":
+			r.Failf("C02.wf-final-differs", line, "%s", diff)
+		}
 	case "hazard":
 		if diff != "" || !sameTrace {
 			r.Count("wf:hazard-differs")
 		} else {
 			r.Count("wf:hazard-same")
 		}
+	}
+}
+
+// ---- class 4: coalesced stores with duplicate addresses inside one line (`c02 st` lines) --------
+
+// c02dStoreCase draws the lane addresses of one pattern; every dword is 4-aligned inside its line.
+func c02dStoreCase(rng *Rng, pat int) *c02Flat {
+	c := &c02Flat{opc: 28, arch: "gcn3", dst: rng.Range(6, 10), seed: uint64(rng.Intn(1 << 20))}
+	if rng.Chance(30) {
+		c.arch = "cdna3"
+	}
+	base := uint64(0x100000000) + uint64(rng.Intn(1<<20))*64
+	randExec := func(n int) uint64 { // n random lanes
+		var e uint64
+		for _, l := range rng.Perm(64)[:n] {
+			e |= 1 << uint(l)
+		}
+		return e
+	}
+	dw := func(k int) uint64 { return base + 4*uint64(k) }
+	switch pat {
+	case 0: // all active lanes on ONE dword
+		c.exec = randExec(rng.Range(2, 64))
+		if rng.Chance(30) {
+			c.exec = c02dFull
+		}
+		k := rng.Intn(16)
+		for l := 0; l < 64; l++ {
+			if c.exec&(1<<uint(l)) != 0 {
+				c.vals = append(c.vals, dw(k))
+			}
+		}
+	case 1: // 16 lanes, two of them on the same dword, one dword of the line never addressed
+		c.exec = randExec(16)
+		if rng.Bool() {
+			c.exec = 0xffff << uint(rng.Intn(49))
+		}
+		slots := rng.Perm(16) // slots[15] is never addressed
+		for n := 0; n < 15; n++ {
+			c.vals = append(c.vals, dw(slots[n]))
+		}
+		c.vals = append(c.vals, dw(slots[rng.Intn(15)]))
+		for i, j := range rng.Perm(16) { // which lane holds the duplicate is random
+			if i < j {
+				c.vals[i], c.vals[j] = c.vals[j], c.vals[i]
+			}
+		}
+	case 2: // 17..64 lanes cover 15 of the 16 dwords, with duplicates: >= 64 bytes merged, one dword untouched
+		n := rng.Range(17, 64)
+		c.exec = randExec(n)
+		slots := rng.Perm(16)
+		for i := 0; i < n; i++ {
+			if i < 15 {
+				c.vals = append(c.vals, dw(slots[i]))
+			} else {
+				c.vals = append(c.vals, dw(slots[rng.Intn(15)]))
+			}
+		}
+		for i, j := range rng.Perm(n) {
+			if i < j {
+				c.vals[i], c.vals[j] = c.vals[j], c.vals[i]
+			}
+		}
+	case 3: // two lines, each with duplicates and holes
+		n := rng.Range(6, 40)
+		c.exec = randExec(n)
+		other := base + 64*uint64(rng.Pick(1, 2, 5))
+		for i := 0; i < n; i++ {
+			a := dw(rng.Intn(6) * 2)
+			if rng.Bool() {
+				a = other + 4*uint64(rng.Intn(5)*3)
+			}
+			c.vals = append(c.vals, a)
+		}
+	case 4: // x2 / x4: chunks with duplicates, one chunk of the line untouched
+		c.opc = rng.Pick(29, 31)
+		chunk, per := 8, 8
+		if c.opc == 31 {
+			chunk, per = 16, 4
+		}
+		n := rng.Range(2, 24)
+		c.exec = randExec(n)
+		hole := rng.Intn(per)
+		for i := 0; i < n; i++ {
+			k := rng.Intn(per)
+			for k == hole {
+				k = rng.Intn(per)
+			}
+			a := base + uint64(chunk*k)
+			if rng.Chance(25) { // overlapping, not identical: shifted by one dword (stays inside the line)
+				if a+4+uint64(chunk) <= base+64 && (k+1 != hole || c.opc == 31) {
+					a += 4
+				}
+			}
+			c.vals = append(c.vals, a)
+		}
+	default: // a single lane
+		c.exec = uint64(1) << uint(rng.Intn(64))
+		c.opc = rng.Pick(28, 28, 29, 31)
+		c.vals = []uint64{dw(rng.Intn(12))}
+	}
+	return c
+}
+
+// c02dRunStore: like (*c02Env).runStore — the real coalescer and issue code of the vector memory unit
+// next to the real emulator, same `c02 st` line — and every real mem.WriteReq is checked byte by byte.
+func c02dRunStore(r *Run, rng *Rng, e *c02Env, c *c02Flat, pat int) {
+	c.ord = rng.Perm(c.nLines())
+	line := c.line("st")
+	inst := c.inst(e)
+	e.mem.pattern, e.mem.seed, e.mem.over = false, c.seed, map[uint64]byte{}
+	c.setRegs(e, rng, true)
+	var eout string
+	if f := e.runEmu(c.arch, inst, c.exec); f != "" {
+		eout = c02Fault(f)
+	} else {
+		eout = c02Runs2Str(e.mem.over)
+	}
+	wf := e.newTimingWf(c.exec)
+	wf.SetDynamicInst(wavefront.NewInst(inst))
+	var txns []cu.VerifTxn
+	var ok bool
+	tf := catch(func() { ok, txns = e.cu.VerifFlatIssue(wf) })
+	tmem := map[uint64]byte{}
+	var tx []string
+	for _, t := range txns {
+		n := 0
+		for _, d := range t.Write.DirtyMask {
+			if d {
+				n++
+			}
+		}
+		tx = append(tx, fmt.Sprintf("%x:%d", t.Write.Address, n))
+	}
+	if tf == "" && ok {
+		for _, i := range c.ord {
+			if i >= len(txns) {
+				continue
+			}
+			t := txns[i]
+			for k, d := range t.Write.DirtyMask { // only dirty bytes reach the memory
+				if d {
+					tmem[t.Write.Address+uint64(k)] = t.Write.Data[k]
+				}
+			}
+			rsp := mem.WriteDoneRspBuilder{}.WithRspTo(t.Write.ID).Build()
+			if tf = catch(func() { e.cu.VerifVectorMemRsp(rsp) }); tf != "" {
+				break
+			}
+		}
+	}
+	tout := c02Runs2Str(tmem)
+	if tf != "" {
+		tout = c02Fault(tf)
+		r.Case(line, fmt.Sprintf("E %s | T %s", eout, tout))
+	} else {
+		r.Case(line, fmt.Sprintf("E %s | T txns=%s %s", eout, strings.Join(tx, ","), tout))
+	}
+	r.Count(fmt.Sprintf("st-dup:pattern=%d", pat))
+	r.Count(fmt.Sprintf("st-dup:lines=%d", len(txns)))
+
+	// which (lane, j) covers a byte: the highest lane wins (the coalescer merges lanes ascending)
+	_, cnt := c02Width(c.opc)
+	type src struct {
+		lane, j int
+		start   uint64
+	}
+	cover := func(a uint64) (src, bool) {
+		best, found := src{}, false
+		k := 0
+		for l := 0; l < 64; l++ {
+			if c.exec&(1<<uint(l)) == 0 {
+				continue
+			}
+			v := c.effAddr(c.vals[k])
+			k++
+			for j := 0; j < cnt; j++ {
+				if s := v + uint64(4*j); s <= a && a < s+4 {
+					best, found = src{l, j, s}, true
+				}
+			}
+		}
+		return best, found
+	}
+	r.Checked("store-dirty-mask")
+	if tf != "" {
+		r.Failf("C02.store-differs.dup", line, "timing side faults: %s (emulator %s)", tout, eout)
+		return
+	}
+	covered := 0
+	for _, t := range txns {
+		w := t.Write
+		if w == nil || len(w.DirtyMask) != len(w.Data) {
+			r.Failf("C02.store-writes-unaddressed-byte.shape", line, "request without data / dirty mask of another length")
+			continue
+		}
+		extra, missing, wrong := 0, 0, 0
+		var first [3]string
+		for k := range w.Data {
+			a := w.Address + uint64(k)
+			sc, cov := cover(a)
+			switch {
+			case w.DirtyMask[k] && !cov:
+				if extra++; extra == 1 {
+					first[0] = fmt.Sprintf("byte %d (address %x) is dirty, no active lane stores there", k, a)
+				}
+			case !w.DirtyMask[k] && cov:
+				if missing++; missing == 1 {
+					first[1] = fmt.Sprintf("byte %d (address %x) is stored by lane %d but not dirty", k, a, sc.lane)
+				}
+			case cov:
+				covered++
+				want := byte(c02DataWord(c.seed, sc.lane, sc.j) >> (8 * (a - sc.start)))
+				if w.Data[k] != want {
+					if wrong++; wrong == 1 {
+						first[2] = fmt.Sprintf("byte %d is %02x, the highest lane storing there (%d) holds %02x", k, w.Data[k], sc.lane, want)
+					}
+				}
+			}
+		}
+		if extra > 0 {
+			r.Failf("C02.store-writes-unaddressed-byte", line, "request %x: %d such bytes, first: %s", w.Address, extra, first[0])
+		}
+		if missing > 0 {
+			r.Failf("C02.store-writes-unaddressed-byte.missing", line, "request %x: %d such bytes, first: %s", w.Address, missing, first[1])
+		}
+		if wrong > 0 {
+			r.Failf("C02.store-wrong-merge", line, "request %x: %d such bytes, first: %s", w.Address, wrong, first[2])
+		}
+	}
+	// every stored byte is in some request
+	total := map[uint64]bool{}
+	for _, v := range c.vals {
+		for j := 0; j < 4*cnt; j++ {
+			total[c.effAddr(v)+uint64(j)] = true
+		}
+	}
+	if covered != len(total) {
+		r.Failf("C02.store-writes-unaddressed-byte.missing", line, "%d bytes stored by the lanes, %d covered by the requests", len(total), covered)
+	}
+	r.Checked("store-emu-vs-timing")
+	if eout != tout {
+		r.Failf("C02.store-differs.dup", line, "emulator: %s  timing: %s", eout, tout)
+	}
+}
+
+func c02dRunStores(r *Run, rng *Rng, n int) {
+	e := newC02Env()
+	for k := 0; k < n; k++ {
+		pat := k % 6
+		c02dRunStore(r, rng, e, c02dStoreCase(rng, pat), pat)
 	}
 }
 
@@ -1726,4 +2202,9 @@ func runC02Deep(r *Run, rng *Rng, replay string) {
 	for k := 0; k < n; k++ {
 		c02dRunCase(r, rng, dis, c02dGenCase(rng))
 	}
+	nst := 60
+	if r.Tier == "thorough" {
+		nst = 1500
+	}
+	c02dRunStores(r, rng, nst)
 }
